@@ -39,8 +39,13 @@ def run(ctx):
     for o in outs:
         found = next((t for a, t in o.st.pc if a[0] == 'bin' and a[1] == 'Eq' and a[3] == ('lit', OID) and a[2][0] == 'field' and a[2][2] == 'ctype'), None)
         up = [e for e in o.st.ev if e[0] == 'call' and e[1].endswith("SearchStream::<'a, S, A>::start")]
-        if found is True:
-            seen.add('refuse')
+        # the filter closure runs once per control: what it leaves behind for the next control (the found flag) is loop-carried
+        carried = [e for e in o.st.ev if e[0] == 'loop-carried' and e[3]['k'] == 'Closure']
+        for e in carried:
+            ctx.add('A1.found-flag-starts-false', 'found_pr', loc(e[3]), e[4] == absx.FALSE, 'the "paging control found" flag must start false (starts as %s)' % absx.fmt(e[4]))
+        earlier = any(e[2] == absx.TRUE for e in carried)
+        if found is True or (earlier and found is not None):
+            seen.add('refuse' if found else 'refuse-earlier')
             ok = o.val[0] == 'ctor' and o.val[1] == 'Err' and o.val[2][0][0] == 'ctor' and o.val[2][0][1] == 'LdapError::AdapterInit' and not up
             ctx.add('A1.refuses-caller-paging-control', 'found', loc(B.root), ok, 'a caller-supplied paging control must be rejected with AdapterInit before the search starts')
             continue
@@ -74,7 +79,7 @@ def run(ctx):
         ctx.add('A1.saves-search-parameters', 'base/scope/filter/attrs', loc(B.root), oks, 'the search parameters are not saved from the same-named arguments')
         oku = len(up) == 1 and up[0][2] == (STREAM, ('param', 'base'), ('param', 'scope'), ('param', 'filter'), ('param', 'attrs')) and o.val == ('await', ('call', up[0][1], up[0][2], up[0][3].get('id')))
         ctx.add('A1.upcall', 'stream.start', loc(B.root), oku, 'the upcall does not receive (base, scope, filter, attrs) in order or its result is not returned')
-    for need in ('refuse', 'proceed'):
+    for need in ('refuse', 'refuse-earlier', 'proceed'):
         ctx.add('A1.coverage', need, loc(B.root), need in seen, 'no path of start() for ' + need)
 
     # ------------------------------------------------------------------ A2 next
